@@ -136,6 +136,46 @@ def mdd_history(tid, seed, steps):
     return tr
 
 
+def mdd_stream(tid, seed):
+    """Keep results, drop operands, collect, re-use numbers: stale MDD ite table."""
+    rng = random.Random(seed)
+    lx, ly = rng.choice([(3, 2), (4, 2), (3, 3)])
+    lv = [0, 1]
+    rng.shuffle(lv)
+    dvars = {'x': dict(level=lv[0], len=lx), 'y': dict(level=lv[1], len=ly)}
+    tr = MTrace(tid, dvars, seed)
+    m = tr.m
+
+    def indicator(var, val):
+        n = dvars[var]['len']
+        kids = [1 if j == val else -1 for j in range(n)]
+        return tr.call('mdd.find_or_add', dict(level=dvars[var]['level'], kids=kids),
+                       lambda: m.find_or_add(dvars[var]['level'], *kids), hold=True)[0]
+
+    def drop(u):
+        def dec():
+            m.decref(u)
+            tr.ext[abs(u)] -= 1
+            if not tr.ext[abs(u)]:
+                del tr.ext[abs(u)]
+            return 0
+        tr.call('mdd.decref', dict(u=u), dec)
+    y1 = indicator('y', rng.randrange(ly))
+    kept = []
+    for rnd in range(2):
+        for i in range(lx):
+            ind = indicator('x', i)
+            op = rng.choice(['and', 'or', '#', '=>'])
+            r, _ = tr.call('mdd.apply', dict(op=op, args=[ind, y1]), lambda: m.apply(op, ind, y1), hold=True)
+            r2, _ = tr.call('mdd.ite', dict(g=ind, u=-y1, v=y1), lambda: m.ite(ind, -y1, y1), hold=True)
+            kept += [r, r2]
+            drop(ind)
+            tr.call('mdd.gc', dict(), lambda: (m.collect_garbage(), 0)[1])
+            if len(kept) > 4:
+                drop(kept.pop(0))
+    return tr
+
+
 def convert_event(rng):
     """One bdd_to_mdd conversion."""
     nint = rng.randint(1, 3)
@@ -196,7 +236,8 @@ def c15_task(shard, tid0, seed, nhist, steps, nconv):
     samples = []
     with open(shard, 'w') as f:
         for i in range(nhist):
-            tr = mdd_history(tid0 + i, seed * 1009 + i, steps)
+            tr = mdd_history(tid0 + i, seed * 1009 + i, steps) if i % 2 == 0 \
+                else mdd_stream(tid0 + i, seed * 1009 + i)
             f.write(tr.dumps() + '\n')
             nev += len(tr.events)
             for ev in tr.events:
